@@ -28,6 +28,7 @@ def shards(tier, seed):
 	n = 8 if tier == 'quick' else 32
 	out = [dict(name=f'pos-{i}', kind='pos', sub=i, nworlds=10 if tier == 'quick' else 60) for i in range(n)]
 	out.append(dict(name='neg', kind='neg', nworlds=6 if tier == 'quick' else 40))
+	out.append(dict(name='big', kind='big', sizes=[1100] if tier == 'quick' else [1001, 1100, 2300]))
 	out.append(dict(name='dirs', kind='dirs'))
 	out.append(dict(name='cli', kind='cli', nworlds=3 if tier == 'quick' else 12))
 	for s_ in out:
@@ -305,7 +306,54 @@ def run_cli(sh, ctx):
 			ctx.violation('incomplete-database-loaded:cli', 'gambit query exited 0 on a database with a genome lacking a signature', desc)
 
 
+def run_big(sh, ctx):
+	"""More reference genomes than the default reference chunk size (1000): the multi-chunk path of the default query parameters,
+	through the API (default QueryParams) and the command line (which cannot change the chunk size)."""
+	from vf import world as W
+	from gambit.db import ReferenceDatabase
+	rng = random.Random(f'C04-big-{ctx.seed}')
+	for n in sh['sizes']:
+		w = distinct_world(rng, ng=n)
+		order = list(range(n)); rng.shuffle(order)
+		id_attr = rng.choice(ID_ATTRS)
+		d = w.write_db(ctx.workdir / f'big{n}', sig_order=order, id_attr=id_attr, interleave_seed=n)
+		desc = dict(id_attr=id_attr, n=n, n_extra=len(w.extra), big=True)
+		ctx.case(('big', n, id_attr), nontrivial=True, sample=desc)
+		ctx.count('big_databases')
+		db = ReferenceDatabase.load_from_dir(d)
+		try:
+			from gambit.query import query, QueryParams
+			by_key = {g['key']: gi for gi, g in enumerate(w.genomes)}
+			qs = [np.array(q['sig'], dtype=w.dtype) for q in w.queries]
+			for params in (QueryParams(report_closest=n), QueryParams(report_closest=n, chunksize=999), QueryParams(report_closest=n)):
+				res = query(db, qs, params)
+				for qi, item in enumerate(res.items):
+					if len(item.closest_genomes) != n:
+						ctx.violation('genome-list-incomplete', f'{len(item.closest_genomes)} genomes reported of {n}', desc); break
+					for m in item.closest_genomes:
+						ctx.evals += 1
+						gi = by_key[m.genome.key]
+						if J.bits(m.distance) != J.bits(w.dist(qi, gi)):
+							ctx.violation('distance-from-foreign-signature', f'big database (default chunking): distance for {m.genome.key} is {float(m.distance)!r}, its own signature gives {w.dist(qi, gi)!r}', desc)
+							break
+		finally:
+			db.signatures.close(); db.session.close()
+		res = W.run_query_archive(d, w)
+		ctx.count('cli_commands')
+		if res is None:
+			ctx.violation('valid-database-refused', 'gambit query failed on a big valid database', desc)
+			continue
+		for qi, it in enumerate(res):
+			for m in it['closest_genomes'] + [it['closest']]:
+				ctx.evals += 1
+				if J.bits(m['distance']) != J.bits(w.dist(qi, by_key[m['genome']])):
+					ctx.violation('distance-from-foreign-signature', f'CLI on a big database: distance for {m["genome"]} is {m["distance"]!r}', desc)
+					break
+
+
 def run_shard(sh, ctx):
+	if sh['kind'] == 'big':
+		return run_big(sh, ctx)
 	{'pos': run_pos, 'neg': run_neg, 'dirs': run_dirs, 'cli': run_cli}[sh['kind']](sh, ctx)
 
 
@@ -313,7 +361,7 @@ def finalize(merged, tier, seed, inconclusive):
 	c = merged['counters']
 	need = [f'id_attr:{a}' for a in ID_ATTRS] + ['order:random', 'order:reversed', 'with_unrelated_signatures', 'negative:dropped-signature', 'negative:renamed-id',
 	        'negative:id_attr-none', 'negative:id_attr-misspelt', 'negative:null-id-column', 'negative:ids-of-wrong-kind', 'negative:dir:two-gdb', 'negative:dir:no-signature-file',
-	        'directory_ok:db+h5', 'cli_commands']
+	        'directory_ok:db+h5', 'cli_commands', 'big_databases']
 	for n in need:
 		if c.get(n, 0) == 0:
 			inconclusive.append(f'class never observed: {n}')
